@@ -5,9 +5,8 @@ unforge_chain_id / unforge_signature / forge_base58`, the domain types (`from_mi
 optimized and readable mode) and `blind_unpack` against the Lean mirror; plus the property's own predicate, stated
 with a reference table of the Tezos binary layouts kept here (independent of pytezos' tables): value -> bytes is the
 reference layout, bytes -> value gives the value back (entrypoints `default`/`` dropped, signatures as `sig`/`BLsig`
-with the same bytes), and whatever a reader accepts is the layout of what it returns (no kind confusion)."""
-import hashlib
-
+with the same bytes), and whatever a reader accepts is the layout of what it returns (no kind confusion).
+The Lean driver computes the Base58Check checksums itself (executable double SHA-256); nothing is handed over."""
 from translator import extract
 
 PROP = 'C10'
@@ -40,10 +39,6 @@ EP_FIRST = 'abcdefghijklmnopqrstuvwxyzABCDEFGHIJKLMNOPQRSTUVWXYZ0123456789_'
 EP_REST = EP_FIRST + '.%@'
 
 
-def sha256d4(b):
-    return hashlib.sha256(hashlib.sha256(b).digest()).digest()[:4]
-
-
 def hx(b):
     return b.hex() if b else '-'
 
@@ -71,7 +66,8 @@ def run(ctx):
         'the unforge direction additionally sees random and near-miss byte strings (wrong tag, wrong padding, wrong length). '
         'non-trivial = digest starts with 00..03 or ends with 00, or an entrypoint is present, or the input is a near miss')
     ctx.assumptions += [
-        'SHA-256 not modelled (abstract 4-byte checksum in the theorems; the driver is fed the real checksums)',
+        'SHA-256: abstract 4-byte checksum in the general theorems; the driver and the `…_sha256` corollaries use the executable Lean '
+        'SHA-256 (tied to hashlib by this run: every string read back from bytes carries a model-computed checksum; and by C09)',
         'entrypoint names are ASCII: bytes.decode()/str.encode() are the identity there; non-ASCII entrypoint bytes are outside the model',
         'str.rstrip() of the base58 library strips more characters on str than on bytes (\\x1c-\\x1f, \\x85, \\xa0): values with '
         'such trailing characters are not generated',
@@ -79,28 +75,6 @@ def run(ctx):
     ]
 
     table = [tuple(r[:4]) for r in enc.base58_encodings]
-    wanted = set(ADDR) | set(KEYS) | set(SIGS) | {'Net'}
-    rows = [r for r in table if r[0].decode() in wanted]
-
-    def value_keys(v):
-        """checksum key of a Base58Check string handed to the model"""
-        try:
-            return [base58.b58decode(v.split('%')[0])[:-4]]
-        except Exception:
-            return []
-
-    def data_keys(d):
-        ks = []
-        for base in (d, d[:22]):
-            for sl in (base, base[1:], base[2:], base[1:-1]):
-                for (h, ln, p, n) in rows:
-                    if len(sl) == n:
-                        ks.append(p + sl)
-        return ks
-
-    def pairs(keys):
-        keys = list(dict.fromkeys(keys))
-        return ','.join(f'{hx(k)}:{sha256d4(k).hex()}' for k in keys) if keys else '-'
 
     def call(fn, *a, out_str=False):
         try:
@@ -125,47 +99,47 @@ def run(ctx):
     # ---- bare functions -----------------------------------------------------------------------
     def f_fa(v, tz):
         real = call(F.forge_address, v, tz)
-        add('forge_address', f'fa {int(tz)} {shx(v)} {pairs(value_keys(v))}', {'op': 'forge_address', 'value': v, 'tz_only': tz}, real)
+        add('forge_address', f'fa {int(tz)} {shx(v)}', {'op': 'forge_address', 'value': v, 'tz_only': tz}, real)
         return real
 
     def f_ua(d):
         real = call(F.unforge_address, d, out_str=True)
-        add('unforge_address', f'ua {hx(d)} {pairs(data_keys(d))}', {'op': 'unforge_address', 'data': d.hex()}, real)
+        add('unforge_address', f'ua {hx(d)}', {'op': 'unforge_address', 'data': d.hex()}, real)
         return real
 
     def f_fc(v):
         real = call(F.forge_contract, v)
-        add('forge_contract', f'fc {shx(v)} {pairs(value_keys(v))}', {'op': 'forge_contract', 'value': v}, real)
+        add('forge_contract', f'fc {shx(v)}', {'op': 'forge_contract', 'value': v}, real)
         return real
 
     def f_uc(d):
         real = call(F.unforge_contract, d, out_str=True)
-        add('unforge_contract', f'uc {hx(d)} {pairs(data_keys(d))}', {'op': 'unforge_contract', 'data': d.hex()}, real)
+        add('unforge_contract', f'uc {hx(d)}', {'op': 'unforge_contract', 'data': d.hex()}, real)
         return real
 
     def f_fpk(v):
         real = call(F.forge_public_key, v)
-        add('forge_public_key', f'fpk {shx(v)} {pairs(value_keys(v))}', {'op': 'forge_public_key', 'value': v}, real)
+        add('forge_public_key', f'fpk {shx(v)}', {'op': 'forge_public_key', 'value': v}, real)
         return real
 
     def f_upk(d):
         real = call(F.unforge_public_key, d, out_str=True)
-        add('unforge_public_key', f'upk {hx(d)} {pairs(data_keys(d))}', {'op': 'unforge_public_key', 'data': d.hex()}, real)
+        add('unforge_public_key', f'upk {hx(d)}', {'op': 'unforge_public_key', 'data': d.hex()}, real)
         return real
 
     def f_fb58(v):
         real = call(F.forge_base58, v)
-        add('forge_base58', f'fb58 {shx(v)} {pairs(value_keys(v))}', {'op': 'forge_base58', 'value': v}, real)
+        add('forge_base58', f'fb58 {shx(v)}', {'op': 'forge_base58', 'value': v}, real)
         return real
 
     def f_uci(d):
         real = call(F.unforge_chain_id, d, out_str=True)
-        add('unforge_chain_id', f'uci {hx(d)} {pairs(data_keys(d))}', {'op': 'unforge_chain_id', 'data': d.hex()}, real)
+        add('unforge_chain_id', f'uci {hx(d)}', {'op': 'unforge_chain_id', 'data': d.hex()}, real)
         return real
 
     def f_usig(d):
         real = call(F.unforge_signature, d, out_str=True)
-        add('unforge_signature', f'usig {hx(d)} {pairs(data_keys(d))}', {'op': 'unforge_signature', 'data': d.hex()}, real)
+        add('unforge_signature', f'usig {hx(d)}', {'op': 'unforge_signature', 'data': d.hex()}, real)
         return real
 
     def f_bu(d):
@@ -181,7 +155,7 @@ def run(ctx):
             except Exception:
                 ok = False
         real = 'ok ' + shx(r) if ok else 'other'
-        add('blind_unpack', f'bu {hx(d)} {pairs(data_keys(d))}', {'op': 'blind_unpack', 'data': d.hex()}, real)
+        add('blind_unpack', f'bu {hx(d)}', {'op': 'blind_unpack', 'data': d.hex()}, real)
         return real
 
     types = {name: MichelsonType.match(michelson_to_micheline(src)) for name, src in (
@@ -194,7 +168,7 @@ def run(ctx):
             real = 'ok ' + hx(bytes.fromhex(r['bytes']))
         except Exception:
             real = 'err'
-        add('type-optimized', f'tw {ty} {shx(v)} {pairs(value_keys(v))}', {'op': 'to-optimized', 'type': ty, 'value': v}, real)
+        add('type-optimized', f'tw {ty} {shx(v)}', {'op': 'to-optimized', 'type': ty, 'value': v}, real)
         return real
 
     def t_read(ty, d):
@@ -203,7 +177,7 @@ def run(ctx):
             real = 'ok ' + shx(r['string'])
         except Exception:
             real = 'err'
-        add('type-readable', f'tr {ty} {hx(d)} {pairs(data_keys(d))}', {'op': 'from-optimized', 'type': ty, 'data': d.hex()}, real)
+        add('type-readable', f'tr {ty} {hx(d)}', {'op': 'from-optimized', 'type': ty, 'data': d.hex()}, real)
         return real
 
     def t_readable_roundtrip(ty, v, want):
